@@ -132,6 +132,51 @@ func runC12(c *kit.Ctx) {
 		c.Check(len(done.Preds) == 1, sb, "no-early-exit", firstPos(done), "the validation loop ends only when the range is exhausted", "the validation loop can be left early: later invalid entries are not seen")
 	}
 
+	// what "batchable" means: the call implements Batchable AND did not ask to skip batching;
+	// CheckAndPut (whose condition cannot travel in a multi action) opts out through that flag
+	if cb := c.Anchor("hrpc", "", "CanBatch"); cb != nil {
+		hasAssert, hasSkip := false, false
+		kit.Instrs(cb, func(in ssa.Instruction) {
+			if ta, ok := in.(*ssa.TypeAssert); ok && ta.CommaOk && strings.HasSuffix(ta.AssertedType.String(), "/hrpc.Batchable") {
+				hasAssert = true
+			}
+			if call, ok := in.(*ssa.Call); ok && call.Call.IsInvoke() && call.Call.Method.Name() == "SkipBatch" {
+				hasSkip = true
+			}
+		})
+		// every true result requires ok && !SkipBatch(): walk the truth table over the two atoms
+		cl := func(cond ssa.Value) (string, bool, bool) {
+			if ex, ok := cond.(*ssa.Extract); ok && ex.Index == 1 {
+				if _, ok := ex.Tuple.(*ssa.TypeAssert); ok {
+					return "isBatchable", true, true
+				}
+			}
+			if call, ok := cond.(*ssa.Call); ok && call.Call.IsInvoke() && call.Call.Method.Name() == "SkipBatch" {
+				return "skip", true, true
+			}
+			return "", false, false
+		}
+		tbl, bad := boolFuncTable(cb, []string{"isBatchable", "skip"}, cl)
+		good := hasAssert && hasSkip && tbl != nil
+		if tbl != nil {
+			for mask := 0; mask < 4; mask++ {
+				if tbl[mask] != (mask&1 != 0 && mask&2 == 0) {
+					good = false
+				}
+			}
+		}
+		c.Check(good, cb, "canbatch-definition", cb.Pos(), "CanBatch(c) == c is Batchable && !c.SkipBatch()", "CanBatch no longer means 'Batchable and not SkipBatch' ("+bad+"): calls that must not be merged into a multi request (CheckAndPut, SkipBatch()) pass validation")
+		if ncp := c.Anchor("hrpc", "", "NewCheckAndPut"); ncp != nil {
+			set := false
+			for _, call := range kit.Calls(ncp, kit.M("hrpc", "*Mutate", "setSkipBatch")) {
+				if k, ok := call.Common().Args[1].(*ssa.Const); ok && k.Value != nil && k.Value.ExactString() == "true" {
+					set = true
+				}
+			}
+			c.Check(set, ncp, "checkandput-opts-out", ncp.Pos(), "NewCheckAndPut marks its put as not batchable", "a CheckAndPut no longer opts out of batching: inside a batch its condition is dropped and it executes as an unconditional put")
+		}
+	}
+
 	// ---- R2 ---------------------------------------------------------------
 	c.StartRule("R2", "only retryable classes are sent again", 3)
 	{
